@@ -266,6 +266,7 @@ func (cr *clRun) quorum() int { return cr.c.rf/2 + 1 }
 func (cr *clRun) run(dir string) {
 	s := cr.s
 	w := simrt.NewWorld(s.Seed, synctest.Wait)
+	w.StrictLocks = os.Getenv("VERIF_LOOSE_LOCKS") == ""
 	defer w.Close()
 	cr.w = w
 	w.TraceOn = os.Getenv("VERIF_TRACE") != "" || s.Cfg["trace"] != 0
